@@ -36,7 +36,7 @@ type Engine struct {
 	loadErrs    []string
 }
 
-func newEngine(repo, trustedDir string) (*Engine, error) {
+func newEngine(repo, trustedDir string, extraTrusted ...string) (*Engine, error) {
 	e := &Engine{repo: repo, ssaPkgs: map[string]*ssa.Package{}, allTypes: map[string]*types.Package{},
 		fnContract: map[*ssa.Function]*FuncContract{}, contractFn: map[*FuncContract]*ssa.Function{},
 		roGlobals: map[string]bool{}, arrFieldIDs: map[string]int{}, implIfaces: map[string]types.Type{}, built: map[string]bool{}}
@@ -58,6 +58,14 @@ func newEngine(repo, trustedDir string) (*Engine, error) {
 	})
 	if err != nil {
 		return nil, err
+	}
+	for _, d := range extraTrusted {
+		specs, _ := filepath.Glob(filepath.Join(d, "*.spec"))
+		for _, f := range specs {
+			if err := cs.loadFile(f, ""); err != nil {
+				return nil, err
+			}
+		}
 	}
 	e.contracts = cs
 	return e, nil
